@@ -77,6 +77,9 @@ class MemT(asyncio.Transport):
         self.writes: List[int] = []  # size of each transport.write
         self.fail_write_at: Optional[int] = None  # index of the write call that raises
         self.lost = False
+        # asyncio's selector transport (CPython >= 3.12) keeps a memoryview of the caller's object for whatever the
+        # socket did not take at once; while such a view exists a bytearray cannot be resized (BufferError)
+        self.held: List[memoryview] = []
 
     def set_protocol(self, p):
         self.proto = p
@@ -96,6 +99,8 @@ class MemT(asyncio.Transport):
         if self.lost:
             return
         self.out += bytes(b)
+        if self.blocked and len(b):
+            self.held.append(memoryview(b))
 
     def close(self):
         if not self.closed:
@@ -153,6 +158,9 @@ class MemT(asyncio.Transport):
     def unblock(self):
         if self.blocked:
             self.blocked = False
+            for mv in self.held:
+                mv.release()
+            self.held.clear()
             self.proto.resume_writing()
 
 
